@@ -30,6 +30,9 @@ pub enum Op {
     /// build_message of an MSM message with a full nsat x nsig cell matrix (cell mask of exactly
     /// nsat*nsig bits); header fields come from the decoded generated message of `spec`
     BuildMsm { spec: GenSpec, nsat: u8, nsig: u8 },
+    /// build_message of a 1059 code-bias message with `nsat` satellites and `nbias` biases in all
+    /// (64 x 390 is the largest frame the crate can emit: 1029 bytes)
+    BuildBias { nsat: u8, nbias: u16 },
     /// build_generated_message on the same builder (judged under clause C12.g: same
     /// generator state => same frame as a fresh builder)
     Generated { spec: GenSpec },
@@ -69,6 +72,7 @@ pub fn op_brief(op: &Op) -> String {
         Op::NoWire { which, n } => format!("nowire({},{})", which, n),
         Op::Injected { spec, k } => format!("build({})!put#{}", spec.msg, k),
         Op::BuildMsm { spec, nsat, nsig } => format!("build_msm({},{}x{})", spec.msg, nsat, nsig),
+        Op::BuildBias { nsat, nbias } => format!("build_1059({}sat,{}bias)", nsat, nbias),
         Op::Generated { spec } => format!("generated({})", spec.msg),
         Op::GeneratedInjected { spec, k } => format!("generated({})!put#{}", spec.msg, k),
     }
@@ -316,6 +320,46 @@ pub fn msm_shape(spec: &GenSpec, nsat: u8, nsig: u8) -> Option<Message> {
     Some(m)
 }
 
+/// typed 1059 message with `nsat` satellites and `nbias` code biases spread round-robin over them;
+/// header fields from a decoded generated 1059, signal ids collected from decoded generated ones
+pub fn bias_shape(nsat: u8, nbias: u16) -> Option<Message> {
+    if nsat == 0 || nsat > 64 || nbias as usize > 390 || (nbias as usize) < nsat as usize {
+        return None;
+    }
+    let mut sigs: Vec<GpsSigId> = Vec::new();
+    let mut template: Option<Message> = None;
+    for k in 0..48u64 {
+        let sp = GenSpec { msg: 1059, gen_seed: 0x1059 + k, p_len_max: 0.3, p_field_max: 0.0, force: Vec::new() };
+        if let Some(Message::Msg1059(t)) = materialise(&sp) {
+            for b in t.biases.iter() {
+                if !sigs.contains(&b.signal_id) {
+                    sigs.push(b.signal_id);
+                }
+            }
+            if template.is_none() {
+                template = Some(Message::Msg1059(t));
+            }
+        }
+        if sigs.len() >= 12 {
+            break;
+        }
+    }
+    let per_sat = (nbias as usize + nsat as usize - 1) / nsat as usize;
+    if per_sat > sigs.len() {
+        return None;
+    }
+    let mut m = template?;
+    if let Message::Msg1059(t) = &mut m {
+        t.biases.clear();
+        for i in 0..nbias as usize {
+            let sat = (i % nsat as usize) as u8; // 1059 satellite ids are 0..=63
+            let sig = sigs[i / nsat as usize];
+            t.biases.push(rtcm_rs::msg::Msg1059CodeBias { satellite_id: sat, signal_id: sig, bias_m: -0.01 * (1 + (i % 7)) as f32 });
+        }
+    }
+    Some(m)
+}
+
 pub fn refusal_kinds_for(n: u16) -> &'static [&'static str] {
     if is_msm(n) {
         &["msm_sat0", "msm_mismatch", "msm_dup_cell"]
@@ -395,6 +439,7 @@ pub fn op_message(op: &Op) -> Option<Message> {
         Op::Build { spec } | Op::Injected { spec, .. } => materialise(spec),
         Op::Refused { spec, how } => materialise(spec).and_then(|m| mutate(m, how)),
         Op::BuildMsm { spec, nsat, nsig } => msm_shape(spec, *nsat, *nsig),
+        Op::BuildBias { nsat, nbias } => bias_shape(*nsat, *nbias),
         Op::NoWire { which, n } => Some(match which.as_str() {
             "empty" => Message::Empty,
             "corrupt" => Message::Corrupt,
@@ -413,7 +458,7 @@ pub fn count_puts(m: &Message) -> u64 {
 
 pub fn run_op(b: &mut MessageBuilder, op: &Op, msg: &Option<Message>) -> (Outcome, u64) {
     match op {
-        Op::Build { .. } | Op::Refused { .. } | Op::NoWire { .. } | Op::BuildMsm { .. } => match msg {
+        Op::Build { .. } | Op::Refused { .. } | Op::NoWire { .. } | Op::BuildMsm { .. } | Op::BuildBias { .. } => match msg {
             Some(m) => guarded_build(b, m, 0),
             None => (Outcome::Skip, 0),
         },
@@ -1256,6 +1301,28 @@ pub fn directed_builder(thorough: bool) -> Vec<BuilderTrace> {
                         &mut out,
                     );
                 }
+            }
+        }
+    }
+    // maximum-length frames: 1059 with 64 satellites x 390 biases is 1029 bytes; near-maximum targets
+    // after it (and after one more short build), so that the LAST bytes of the buffer matter
+    if all.contains(&1059) {
+        let max = Op::BuildBias { nsat: 64, nbias: 390 };
+        for nsat in [64u8, 63, 62, 61, 60] {
+            for nbias in [390u16, 389, 388, 387, 386, 385, 384, 380] {
+                if nsat == 64 && nbias == 390 {
+                    continue;
+                }
+                add("near_max_after_max_1059", vec![max.clone(), Op::BuildBias { nsat, nbias }], &mut out);
+            }
+        }
+        for s in shorts.iter().take(3) {
+            add("max_short_nearmax_1059", vec![max.clone(), Op::Build { spec: spec(*s, 1600, 0.0) }, Op::BuildBias { nsat: 63, nbias: 390 }], &mut out);
+        }
+        // payloads whose length is a multiple of 256 bytes, then a short target
+        for (nsat, nbias) in [(10u8, 100u16), (20, 200), (40, 300)] {
+            for d in 0..12u16 {
+                add("payload_multiple_of_256_then_short", vec![Op::BuildBias { nsat, nbias: nbias + d }, Op::Build { spec: spec(shorts[0], 1601, 0.0) }], &mut out);
             }
         }
     }
